@@ -414,15 +414,18 @@ func (bsc *BlipSyncContext) handleChangesResponse(ctx context.Context, sender *b
 		}
 	}
 
+	// Register the sequences we're awaiting an acknowledgement for before the already known sequences of the same batch.
+	// A checkpoint can run between the two callbacks, and must not see an already known sequence as safe whilst a lower
+	// sequence from this batch has been sent but is not yet expected.
+	if revSendCount > 0 && collectionCtx.sgr2PushAddExpectedSeqsCallback != nil {
+		collectionCtx.sgr2PushAddExpectedSeqsCallback(sentSeqs...)
+	}
+
 	if collectionCtx.sgr2PushAlreadyKnownSeqsCallback != nil {
 		collectionCtx.sgr2PushAlreadyKnownSeqsCallback(alreadyKnownSeqs...)
 	}
 
 	if revSendCount > 0 {
-		if collectionCtx.sgr2PushAddExpectedSeqsCallback != nil {
-			collectionCtx.sgr2PushAddExpectedSeqsCallback(sentSeqs...)
-		}
-
 		bsc.replicationStats.HandleChangesSendRevCount.Add(revSendCount)
 		bsc.replicationStats.HandleChangesSendRevLatency.Add(revSendTimeLatency)
 		bsc.replicationStats.HandleChangesSendRevTime.Add(time.Since(changesResponseReceived).Nanoseconds())
